@@ -98,20 +98,20 @@ def scanGarbage (term : List UInt8) (inp : List UInt8) : Nat → Nat → Except 
 /-- number of comparisons of the scan loop: garbage lengths 0 … MAX_GARBAGE_LEN -/
 def scanIterations : Nat := Spec.MAX_GARBAGE_LEN + 1
 
-/-- send the decoys (all-zero contents, ignore bit) then the (empty) version packet; the AAD
+/-- send the decoys (given contents — BIP324 leaves them to the sender —, ignore bit) then the (empty) version packet; the AAD
 (our garbage) goes with the first packet only. -/
-def sendDecoys (P : Prims) : Dir → List UInt8 → List Nat → List UInt8 → Except (List UInt8) (List UInt8 × Dir)
+def sendDecoys (P : Prims) : Dir → List UInt8 → List (List UInt8) → List UInt8 → Except (List UInt8) (List UInt8 × Dir)
   | d, aad, [], acc =>
     match sendPacket P d [] aad false with
     | some (b, d') => .ok (acc ++ b, d')
     | none => .error acc
   | d, aad, n :: ns, acc =>
-    match sendPacket P d (List.replicate n 0) aad true with
+    match sendPacket P d n aad true with
     | some (b, d') => sendDecoys P d' [] ns (acc ++ b)
     | none => .error acc
 
 /-- the part of CompleteHandshake after key agreement -/
-def completeAfterKeys (P : Prims) (s : Session) (garbage : List UInt8) (decoys : List Nat)
+def completeAfterKeys (P : Prims) (s : Session) (garbage : List UInt8) (decoys : List (List UInt8))
     (written inp : List UInt8) : HsOut :=
   let written := written ++ s.sendTerm
   match sendDecoys P s.send garbage decoys [] with
@@ -130,7 +130,7 @@ def completeAfterKeys (P : Prims) (s : Session) (garbage : List UInt8) (decoys :
       | .ok _ recv' rest' => ⟨written, .ok, some { s with recv := recv' }, rest'⟩
 
 /-- InitiateV2Handshake(gLen) followed by CompleteHandshake(true, decoys, magic) -/
-def initiator (P : Prims) (K : Kdf) (magic : Nat) (rnd : List UInt8) (gLen : Nat) (decoys : List Nat)
+def initiator (P : Prims) (K : Kdf) (magic : Nat) (rnd : List UInt8) (gLen : Nat) (decoys : List (List UInt8))
     (inp : List UInt8) : HsOut :=
   match Ellswift.create rnd with
   | none => ⟨[], .internal, none, inp⟩
@@ -156,7 +156,7 @@ def v1Mismatch (v1 inp : List UInt8) : Nat → Nat → Except Status Nat
     else v1Mismatch v1 inp fuel (i + 1)
 
 /-- RespondV2Handshake(gLen, magic) followed by CompleteHandshake(false, decoys, magic) -/
-def responder (P : Prims) (K : Kdf) (magic : Nat) (rnd : List UInt8) (gLen : Nat) (decoys : List Nat)
+def responder (P : Prims) (K : Kdf) (magic : Nat) (rnd : List UInt8) (gLen : Nat) (decoys : List (List UInt8))
     (inp : List UInt8) : HsOut :=
   let v1 := v1Prefix magic
   match v1Mismatch v1 inp 16 0 with
@@ -182,7 +182,7 @@ key generation) fails, 2 = the second Acquire (before key agreement) fails, ≥ 
 Result: the handshake outcome and the numbers of successful-or-attempted Acquire calls and of
 release calls. The v1 path never consults the admission; a rejected first Acquire writes nothing;
 every acquired lease is released before network I/O continues. -/
-def responderAdm (P : Prims) (K : Kdf) (magic : Nat) (rnd : List UInt8) (gLen : Nat) (decoys : List Nat)
+def responderAdm (P : Prims) (K : Kdf) (magic : Nat) (rnd : List UInt8) (gLen : Nat) (decoys : List (List UInt8))
     (inp : List UInt8) (adm : Nat) : HsOut × Nat × Nat :=
   let v1 := v1Prefix magic
   match v1Mismatch v1 inp 16 0 with
